@@ -492,7 +492,7 @@ impl<Sp, const DIM: usize> Affine for Color<[u8; DIM], Sp> {
 
     fn add(&self, other: &Self::Diff) -> Self {
         array::from_fn(|i| {
-            let sum = i32::from(self.0[i]) + other.0[i];
+            let sum = i32::from(self.0[i]).saturating_add(other.0[i]);
             sum.clamp(0, u8::MAX as i32) as u8
         })
         .into()
